@@ -248,9 +248,49 @@ def bool_edges(fn, call_bb):
     return out
 
 
-def guarded_by_bool(fn, event_bb, call_pat, want, summaries=None):
+def _helper_implies(db, g, call_pat, want, depth=2, _seen=None):
+    """For a bool-returning workspace helper g: does `g(..) == want` imply that the call matching call_pat
+    (made inside g) returned `want`?  (`a() && b()` helpers for want=True, `a() || b()` for want=False.)"""
+    _seen = _seen or set()
+    if g.id in _seen or not g.locals or g.locals[0][0] != "bool":
+        return False
+    _seen.add(g.id)
+    inner = calls(g, call_pat)
+    if not inner:
+        return False
+    inner_dsts = set()
+    for cbb, t in inner:
+        inner_dsts |= same_value_locals(g, t["dst"]["l"])
+    ok_any = False
+    for bi, si, s in g.stmts():
+        if "a" not in s or s["a"]["l"] != 0 or s["a"]["p"]:
+            continue
+        r = s["r"]
+        ops = r.get("ops", [])
+        if r["k"] == "use" and ops and ops[0].get("k") == ("false" if want else "true"):
+            continue                      # the other outcome: no constraint
+        if r["k"] == "use" and ops and op_place(ops[0]) is not None and op_place(ops[0])["l"] in inner_dsts:
+            ok_any = True                 # returns the call's own result
+            continue
+        if guarded_by_bool(g, bi, call_pat, want, db=db, depth=depth - 1) is not None:
+            ok_any = True
+            continue
+        return False
+    for bb, t in g.calls():
+        if t["dst"]["l"] == 0:
+            if call_matches(t, call_pat):
+                ok_any = True
+            elif guarded_by_bool(g, bb, call_pat, want, db=db, depth=depth - 1) is not None:
+                ok_any = True
+            else:
+                return False
+    return ok_any
+
+
+def guarded_by_bool(fn, event_bb, call_pat, want, summaries=None, db=None, depth=2):
     """Is event_bb dominated by the `want` (True/False) edge of a switch on the result of a call
-    matching call_pat?  Returns the guarding call block or None."""
+    matching call_pat — directly, or through a bool-returning workspace helper whose result implies it?
+    Returns the guarding call block or None."""
     cfg = fn.cfg
     for cbb, t in calls(fn, call_pat):
         for (sbb, tt, ft) in bool_edges(fn, cbb):
@@ -259,6 +299,18 @@ def guarded_by_bool(fn, event_bb, call_pat, want, summaries=None):
                 continue
             if cfg.edge_dominates(sbb, tgt, event_bb):
                 return cbb
+    db = db or fn.db
+    if depth > 0 and db is not None:
+        for cbb, t in fn.calls():
+            if call_matches(t, call_pat) or fn.local_ty(t["dst"]["l"]) != "bool":
+                continue
+            for g in db.callee_fns(t, expand_traits=False):
+                if not _helper_implies(db, g, call_pat, want, depth):
+                    continue
+                for (sbb, tt, ft) in bool_edges(fn, cbb):
+                    tgt = tt if want else ft
+                    if tgt != (ft if want else tt) and cfg.edge_dominates(sbb, tgt, event_bb):
+                        return cbb
     return None
 
 
